@@ -5,6 +5,7 @@ package main
 // reports of all levels and languages; all reader behaviours and failure positions.
 
 import (
+	"bufio"
 	"bytes"
 	"context"
 	"errors"
@@ -13,6 +14,7 @@ import (
 	"os"
 	"strings"
 	"sync/atomic"
+	"testing/iotest"
 	"text/template"
 
 	"cvssmc/internal/ev"
@@ -25,7 +27,7 @@ import (
 )
 
 var tmplAtoms = []string{
-	"x", " \n", "}}", "日本",
+	"x", " \n", "}}", "日本", "\ufeff", "\r\n\x00",
 	"{{.Vector}}", "{{.BaseScore}}", "{{.SeverityValue}}", "{{.AVValue}}", "{{.Version}}",
 	"{{.TemporalReport.Vector}}", "{{.BaseReport.SeverityValue}}", "{{.BaseReport.Vector}}", "{{.TemporalScore}}", "{{.EnvironmentalScore}}", "{{.MAVName}}", "{{.EValue}}",
 	"{{.Nope}}", "{{nope .Vector}}", "{{.BaseScore | printf \"%5s\"}}", "{{len .Vector}}", "{{.Vector.X}}",
@@ -297,6 +299,33 @@ func init() {
 						"data with EOF":           func() io.Reader { return &dataWithEOF{s: text} },
 						"zero-length reads first": func() io.Reader { return &zeroThenData{s: text, zeros: 3} },
 						"bytes.Buffer":            func() io.Reader { return bytes.NewBufferString(text) },
+						"bytes.Reader":            func() io.Reader { return bytes.NewReader([]byte(text)) },
+						"io.SectionReader": func() io.Reader {
+							return io.NewSectionReader(strings.NewReader("HDR"+text+"TRAILER"), 3, int64(len(text)))
+						},
+						"bufio.Reader":      func() io.Reader { return bufio.NewReaderSize(strings.NewReader(text), 16) },
+						"iotest.HalfReader": func() io.Reader { return iotest.HalfReader(strings.NewReader(text)) },
+						"io.MultiReader": func() io.Reader {
+							h := len(text) / 2
+							return io.MultiReader(strings.NewReader(text[:h]), strings.NewReader(""), strings.NewReader(text[h:]))
+						},
+					}
+					// readers that were partly consumed before the export: the template is what is left
+					for _, adv := range []int{1, len(text) / 2, len(text)} {
+						if adv > len(text) || adv == 0 || len(text) > 1000 {
+							continue
+						}
+						adv := adv
+						rest := text[adv:]
+						for name, mk := range map[string]func() io.Reader{
+							"strings.Reader advanced": func() io.Reader { r := strings.NewReader(text); io.CopyN(io.Discard, r, int64(adv)); return r },
+							"bytes.Reader advanced":   func() io.Reader { r := bytes.NewReader([]byte(text)); r.Seek(int64(adv), io.SeekStart); return r },
+							"bytes.Buffer advanced":   func() io.Reader { b := bytes.NewBufferString(text); b.Next(adv); return b },
+						} {
+							mk := mk
+							atomic.AddInt64(&readerCases, 1)
+							checkExport(r, st, tg, rest, fmt.Sprintf("ExportWith(%s by %d of %d bytes)", name, adv, len(text)), func() (io.Reader, error) { return tg.rep.ExportWith(mk()) })
+						}
 					}
 					for name, mk := range readers {
 						mk := mk
